@@ -31,7 +31,7 @@ PT_TOL = 1e-9
 
 def floors(tier):
     return {"judged": 3000, "partition_none_free": 50, "partition_some_free": 1000, "partition_all_free": 300,
-            "binding_truncation": 300, "intercepted_calls": 300, "descent_checked": 2000, "__nontrivial__": 250}
+            "binding_truncation": 300, "intercepted_calls": 300, "inputs_with_idle_free_variables": 300, "descent_checked": 2000, "__nontrivial__": 250}
 
 
 def judge_subspace(out, x, xc, g, lb, ub, B, xbar, where, tags, mats=None):
@@ -160,11 +160,12 @@ def cases(tier, seed):
         yield {"kind": "random", "seed": subseed("C09r", seed, i) % (2**31), "count": 20}
     nruns = 150 if tier == "quick" else 4000
     rng = np.random.default_rng(subseed("C09runs", seed))
-    fams = ("qp", "qp_quartic", "qp_softplus", "rosenbrock", "styblinski_tang", "rastrigin", "oscillating")
+    fams = ("qp", "qp_quartic", "qp_softplus", "rosenbrock", "styblinski_tang", "rastrigin", "oscillating", "badly_scaled")
     for i in range(nruns):
         ps = gen.rand_spec(rng, fams, nmax=10, boxes=("mixed", "boxed", "narrow", "lower", "upper", "boxed_degenerate", "none"),
                            starts=("face", "vertex", "outward", "interior"))
-        yield {"kind": "run", "problem": ps, "maxcor": int(rng.integers(1, 8)), "maxiter": int(rng.integers(5, 30))}
+        yield {"kind": "run", "problem": ps, "maxcor": int(rng.integers(1, 8)), "maxiter": int(rng.integers(5, 30)),
+               "eps_SY": float(gen.pick(rng, [2.2e-16, 2.2e-16, 1e-3, 1e-2, 0.1]))}
     del itertools
 
 
@@ -208,7 +209,15 @@ def run(spec):
                 n = int(rng.integers(1, 11))
                 maxcor = int(rng.integers(1, 8))
                 npairs = int(rng.integers(0, maxcor + 1))
-                mm = make_memory(rng, n, npairs, convex=bool(rng.random() < 0.7))
+                idle = None
+                if n >= 3 and j % 4 == 1:
+                    # some variables do not enter the objective at all (zero rows in the memory, zero gradient): their Newton
+                    # component is exactly zero while other variables move and may hit their bounds
+                    idle = np.sort(rng.choice(n, size=int(rng.integers(1, max(2, n // 2))), replace=False))
+                    if rng.random() < 0.6:
+                        idle[0] = 0
+                        idle = np.unique(idle)
+                mm = make_memory(rng, n, npairs, convex=bool(rng.random() < 0.7), idle=idle)
                 if mm is None:
                     out.count("skipped_memory_inconsistent")
                     continue
@@ -217,6 +226,11 @@ def run(spec):
                 x = gen.rand_x0(rng, lb, ub, gen.pick(rng, ["interior", "face", "vertex"]))
                 g = rng.standard_normal(n) * np.exp(rng.uniform(-2, 3))
                 g[rng.random(n) < 0.1] = 0.0
+                if idle is not None:
+                    g[idle] = 0.0
+                    for i in idle:  # strictly inside a finite interval
+                        lb[i], ub[i] = x[i] - float(rng.uniform(0.5, 3.0)) if np.isfinite(x[i]) else -1.0, x[i] + float(rng.uniform(0.5, 3.0))
+                    out.count("inputs_with_idle_free_variables")
                 out.count("random_inputs")
                 synthetic_input(out, keys, x, g, lb, ub, mats, B, f"random n={n} pairs={npairs}", dict(source="random"))
                 last = dict(n=n, pairs=npairs, x=x, g=g, lb=lb, ub=ub)
@@ -263,7 +277,7 @@ def run(spec):
                 if not np.array_equal(ev["live"]["x"], x) or not np.array_equal(ev["live"]["grad"], g):
                     out.violate("subspace_mutated_inputs", "subspace_minimization modified x or grad in place", source="run")
 
-            cfg = dict(jac="callable", maxcor=spec["maxcor"], maxiter=spec["maxiter"], ftol=0.0, gtol=1e-10, maxfun=3000)
+            cfg = dict(jac="callable", maxcor=spec["maxcor"], maxiter=spec["maxiter"], ftol=0.0, gtol=1e-10, maxfun=3000, eps_SY=spec.get("eps_SY", 2.2e-16))
             with probes.Intercept(M, ["subspace_minimization"]) as ic:
                 ic.on_event = on_event
                 tr = probes.run_min(P, cfg)
